@@ -39,10 +39,10 @@ structure TimestampedFrame (α : Type) where
   index : Nat
 
 /-- mirrors: streaming/sound/decode_scheduler.rs::BUFFER_SIZE -/
-def bufferSize : Nat := 16384
+def bufferSize : Nat := gen_body% Gen.streamingBufferSize
 
 /-- mirrors: streaming/data.rs::ERROR_BUFFER_CAPACITY -/
-def errorBufferCapacity : Nat := 1
+def errorBufferCapacity : Nat := gen_body% Gen.streamingErrorBufferCapacity
 
 /-- mirrors: streaming/settings.rs::StreamingSoundSettings -/
 structure StreamingSoundSettings (α : Type) where
